@@ -34,6 +34,7 @@ CFGS = [dict(strategy='subquery', keyshape='str', names='default'),
         # composite keys of mixed types whose LAST column has a bind processor (Date, Boolean)
         dict(strategy='subquery', keyshape='intdate', names='default'),
         dict(strategy='validity', keyshape='strbool', names='default'),
+        dict(strategy='subquery', keyshape='intbytes', names='default'),
         dict(strategy='subquery', keyshape='pkc', names='default'),
         dict(strategy='validity', keyshape='pkm', names='default')]
 
@@ -59,6 +60,8 @@ def gen_key(rng, cfg):
         return [rng.randint(0, 3), rng.randint(1, 3)]            # the second part is the day of 2020-01-<d>
     if cfg['keyshape'] == 'strbool':
         return [rng.choice(['a', 'b', "it's"]), rng.choice([0, 1])]  # the second part is a Boolean
+    if cfg['keyshape'] == 'intbytes':
+        return [rng.randint(0, 2), rng.randint(0, 3)]            # the second part stands for a binary digest
     return [rng.randint(1, 2), rand_str(rng)]
 
 
@@ -105,6 +108,9 @@ def build(cfg):
         elif cfg['keyshape'] == 'strbool':
             attrs['id1'] = sa.Column(sa.Unicode(20), primary_key=True)
             attrs['id2'] = sa.Column(sa.Boolean, primary_key=True)
+        elif cfg['keyshape'] == 'intbytes':
+            attrs['id1'] = sa.Column(sa.Integer, primary_key=True, autoincrement=False)
+            attrs['id2'] = sa.Column(sa.LargeBinary(16), primary_key=True)
         elif cfg['keyshape'] == 'pkc':
             attrs['id1'] = sa.Column(sa.Integer, autoincrement=False)
             attrs['id2'] = sa.Column(sa.Integer, autoincrement=False)
@@ -122,7 +128,7 @@ def build(cfg):
 
 
 def kcols(cfg):
-    return ['id1', 'id2'] if cfg['keyshape'] in ('intstr', 'pkc', 'pkm', 'intdate', 'strbool') else ['id']
+    return ['id1', 'id2'] if cfg['keyshape'] in ('intstr', 'pkc', 'pkm', 'intdate', 'strbool', 'intbytes') else ['id']
 
 
 def dbkey(cfg, k):
@@ -132,6 +138,8 @@ def dbkey(cfg, k):
         return [k[0], datetime.date(2020, 1, k[1])]
     if cfg['keyshape'] == 'strbool':
         return [k[0], bool(k[1])]
+    if cfg['keyshape'] == 'intbytes':
+        return [k[0], [b'', b'\x00', b"b'\\x00'", b'\xff\xfe\x00a'][k[1]]]
     return k
 
 
